@@ -57,6 +57,12 @@ class KickCase:
         self.offs, self.data, self.stream, self.note = offs, data, stream, note
 
     def impl_text(self):
+        if getattr(self, "fill", None) is not None:
+            # probe form (harness command `kickp`): grids built with a filling pattern, stale caches, pre-filled target, clamp flag
+            return "kickp %s %s %d %d %d %d\n%s\n%s\n%s\n" % (self.cid, self.dir, self.n, self.nb, self.it, int(getattr(self, "clamp", 0)),
+                                                            " ".join(fhex(f) for f in self.fill),
+                                                            " ".join(fhex(o) for o in self.offs),
+                                                            " ".join(fhex(v) for v in self.data))
         return "kick %s %s %d %d %d\n%s\n%s\n" % (self.cid, self.dir, self.n, self.nb, self.it,
                                                   " ".join(fhex(o) for o in self.offs),
                                                   " ".join(fhex(v) for v in self.data))
@@ -87,6 +93,11 @@ class KickCase:
         d = dict(kind="kick", id=self.cid, dir=self.dir, n=self.n, nb=self.nb, it=self.it,
                  stream=self.stream, note=self.note, offs=[fhex(o) for o in self.offs],
                  data=[fhex(v) for v in self.data])
+        if getattr(self, "fill", None) is not None:
+            # harness command `kickp`: filling pattern of both grids, clamp flag of the constructor; caches of the input grid
+            # stale, target pre-filled (see harness/impl_kick.cpp)
+            d["fill"] = [fhex(f) for f in self.fill]
+            d["clamp"] = int(getattr(self, "clamp", 0))
         if getattr(self, "history", None) is not None:
             # a step of a sequence on ONE KickMap object: the offset vectors of the earlier swapOffset()+apply() steps
             d["history"] = [[fhex(o) for o in offs] for offs in self.history]
@@ -284,6 +295,76 @@ def ulp_cases(ctx, count, nbs=(1, 2), prefix="u"):
     return cases
 
 
+# ------------------------------------------------------------------ probe cases: what must not matter to a kick
+
+FILLS = {1: [[1.0]],
+         2: [[0.5, 0.5], [1.0, 0.0], [0.0, 1.0], [0.25, 0.75]],
+         3: [[0.5, 0.0, 0.5], [0.0, 0.5, 0.5], [0.25, 0.25, 0.5], [0.0, 0.0, 1.0], [0.5, 0.5, 0.0]],
+         4: [[0.25, 0.0, 0.25, 0.5], [0.5, 0.0, 0.0, 0.5], [0.25, 0.25, 0.25, 0.25], [0.0, 0.5, 0.0, 0.5]]}
+
+
+def probe_cases(ctx, count, nbs=(1, 2, 3, 4), prefix="p", clamps=(0, 0, 1), sizes=None, streams=("exact", "whole", "exact", "tol")):
+    """kick cases run through the harness command `kickp`: the grids are built with a filling pattern (with and without
+    empty buckets) and the data - interior-supported, non-zero in EVERY bunch, also in the buckets the pattern declares
+    empty - are written explicitly; the input grid's caches (profiles, integral, filling) date from an earlier state with
+    empty columns and rows; the target grid holds earlier charge; the clamp flag of the constructor is set in a third of the
+    cases.  None of this is an input of KickMap::apply (C01_kick_apply_every_cell, C08_kick_apply_reads_no_clamp): the
+    output must be the model's (compare_case), every property oracle of a plain kick case applies, and the second
+    application with refreshed caches / uniform pattern / other target content must give the same cells (cachedep)."""
+    rng = ctx.rng
+    cases = []
+    sizes = sizes or [6, 8, 9, 12, 13, 16, 17, 20, 24]
+    for i in range(count):
+        stream = streams[i % len(streams)]
+        n = rng.choice(sizes)
+        nb = nbs[i % len(nbs)]
+        d = "y" if i % 3 != 2 else "x"
+        it = rng.choice([1, 2, 3]) if stream == "exact" else rng.choice([1, 2, 3, 4])
+        kind = rng.choice(["signed", "nonneg", "nonneg"])
+        data = _data(rng, n, nb, kind, stream != "tol")
+        h = n // 2
+        # moderate displacements: the support stays inside (conservation hypotheses hold for most rows)
+        offs = []
+        for _ in range(n * nb):
+            if stream == "whole":
+                offs.append(float(rng.randint(-max(1, n // 6), max(1, n // 6))))
+            elif stream == "exact":
+                offs.append(rng.randint(-max(1, n // 8), max(1, n // 8)) + rng.randint(0, 15) / 16.0)
+            else:
+                offs.append(f32(rng.uniform(-n / 8.0, n / 8.0)))
+        if d == "x":
+            offs = offs[:n] * nb
+        c = KickCase("%s%d" % (prefix, i), d, n, nb, it, offs, data, stream, "probe-" + kind)
+        c.fill = list(rng.choice(FILLS[nb]))
+        c.clamp = clamps[i % len(clamps)]
+        cases.append(c)
+        ctx.count("kick:probe")
+        ctx.count("kick:probe-fill-with-empty-bucket" if 0.0 in c.fill else "kick:probe-fill-full")
+        if c.clamp:
+            ctx.count("kick:probe-clamp-flag")
+    return cases
+
+
+def oracle_cache_independent(ctx, c, r, clause="cache-independence"):
+    """KickMap::apply has no input but data_in and the table (C01_kick_apply_every_cell): the second application of the
+    probe - caches refreshed, uniform filling pattern, other earlier content of the target - must reproduce every cell"""
+    cd = r.get("cachedep")
+    if cd is None:
+        return
+    if cd[0] != 0:
+        n = c.n
+        i = cd[1]
+        ctx.violation("impl-oracle", "KickMap::apply gives a different result when what its input grid caches besides the data (bunch profile, "
+                      "integral, filling), the set filling pattern or the earlier content of the target grid change: %d cells differ, first (bunch %d, x %d, y %d)"
+                      % (cd[0], i // (n * n), (i // n) % n, i % n), case=c.replay(), observed=dict(cells_differing=cd[0], first=i),
+                      expected="0 cells", sig=dict(kind="kick", clause=clause, dir=c.dir))
+    ctx.case_done((c.cid, "kick-cache-independent"), any(v != 0 for v in c.data))
+
+
+def probes_evaluated(ctx):
+    return sum(1 for k in ctx.nontrivial if isinstance(k, tuple) and len(k) == 2 and k[1] == "kick-cache-independent")
+
+
 # ------------------------------------------------------------------ histories on one KickMap object
 
 class KickSeq:
@@ -369,6 +450,28 @@ def downgrade_usm(ctx, coq, dis, validated):
     return coq
 
 
+def kickloop_downgrade(ctx, coq, dis, validated, how):
+    """downgrade rule of DESIGN 2.2 for Gen_KickLoop (translate/kickloop2coq.py recognises one narrow loop idiom of KickMap::apply;
+    a harmless rewrite - pointer loops, hoisted row pointers, a merged branch - makes it fail loudly): when it is the only failing
+    translator (besides those other rules of the check have already downgraded), the development builds on the last-good file, every
+    theorem checks, every case of the run agrees (no disagreement, no unlisted violation) and the cases that stand for what the
+    generated nests state were evaluated (`validated`: whole multi-bunch outputs equal to the model's - every cell written -, the
+    probe stream with empty-bucket patterns, stale caches, pre-filled target and clamp flag, resp. the orbit runs wired as main()),
+    the property is shown through tie 2 and the downgrade is recorded"""
+    failed = [g for g, s_ in coq["gen"].items() if s_.startswith("failed")
+              and not str(ctx.extra.get("translators", {}).get(g, "")).startswith("downgraded")]
+    kf = load_known()
+    unlisted = [v for v in ctx.violations if match_known(kf, v) is None]
+    if failed == ["Gen_KickLoop"] and validated and coq["make_ok"] and coq["props"]["ok"] and not coq["forbidden"] and coq["extract_ok"] \
+            and not dis and not unlisted and ctx.evaluations > 0:
+        ctx.extra["translators"]["Gen_KickLoop"] = "downgraded-to-correspondence (" + coq["gen"]["Gen_KickLoop"][:200] + ")"
+        ctx.notes.append("Gen_KickLoop: translator failed, last-good loop nests validated against the implementation (%s): downgraded to tie 2" % how)
+        others = [g for g, s_ in coq["gen"].items() if s_.startswith("failed") and g != "Gen_KickLoop"
+                  and not str(ctx.extra.get("translators", {}).get(g, "")).startswith("downgraded")]
+        return dict(coq, ok=not others)
+    return coq
+
+
 def run_cases(ctx, cases):
     """-> {cid: dict(impl_table, impl_out, model_table, model_out, defined)} plus raw status"""
     tg = ctx.build()
@@ -394,7 +497,8 @@ def run_cases(ctx, cases):
             impl_out=[parse_c(t) for t in i["out"][0]],
             model_table=[(int(mt[k], 16), parse_q(mt[k + 1])) for k in range(0, len(mt), 2)],
             model_out=[parse_q(t) for t in m["out"][0]],
-            defined=[t == "1" for t in m["defined"][0]])
+            defined=[t == "1" for t in m["defined"][0]],
+            cachedep=[int(t) for t in i["cachedep"][0]] if "cachedep" in i else None)
     return res
 
 
